@@ -141,7 +141,17 @@ def run_config(case, config, seed, which, want_c10=False, gs_override=None):
         # prefit alternates: with prefit=False the optimiser clones and fits the (pass-through) estimator itself
         to = ThresholdOptimizer(estimator=Passthrough(), constraints=cons, objective=obj, grid_size=gs, flip=bool(fi),
                                 prefit=bool((which + ki) % 2), predict_method="predict")
-        to.fit(X, y, sensitive_features=g)
+        y_arg, g_arg = y, g
+        if (which + (ci or 0) + (oi or 0)) % 3 == 1:
+            # labels and groups arrive as pandas objects whose index labels are permutations of 0..n-1: rows pair by POSITION
+            import pandas as pd
+            import random as _random
+            l1 = list(range(n)); _random.Random(seed * 131 + n).shuffle(l1)
+            l2 = list(range(n)); _random.Random(seed * 137 + n + 1).shuffle(l2)
+            y_arg = pd.Series(y, index=l1, name="label")
+            g_arg = pd.Series(g, index=l2)
+            rec["presentation"] = "series_with_permuted_labels"
+        to.fit(X, y_arg, sensitive_features=g_arg)
         pmf = to._pmf_predict(X, sensitive_features=g)
     except Exception as e:
         rec["error"] = repr(e)
